@@ -64,6 +64,9 @@ Section Hdr.
 Variable cb : cb_oracle.
 Variable g : cfg.
 Hypothesis Hcb : wr_all_ok cb.
+Context {w : sg_world}.
+Notation sg_cin := (sg_cinw w).
+Notation sg_mid := (sg_midw w).
 
 (* ---- REQ_HEADERS: scanning for the LF ---- *)
 Lemma sg_hdr_scan_nolf d hdr prev rh t : forall u c rd p n,
@@ -71,11 +74,11 @@ Lemma sg_hdr_scan_nolf d hdr prev rh t : forall u c rd p n,
   exists c', REQ_HEADERS_loop cb g n c = (ST_DATA_BUFFER, c') /\ sg_cin c' d (length d) (p ++ u) hdr REQ_HEADERS prev rh t.
 Proof.
   induction u as [|b u IH]; intros c rd p n H Hu Hnl Hn.
-  - pose proof (sg_skipn_nil d rd Hu) as L. pose proof H as [A1 A2 A3 A4 A5 A6 A7 A8 A9 A10 A11 A12 A13 A14 A15].
+  - pose proof (sg_skipn_nil d rd Hu) as L. pose proof H as [A1 A2 A3 A4 A5 A6 A7 A8 A9 A10 A11 A12 A13 A14 A15 A16 A17].
     assert (E : rd = length d) by lia.
     rewrite wr_headers_loop_eq, (sg_live_closed _ A1).
     unfold rq_copy_byte, rq_at_end. rewrite A5, A6, E, Nat.leb_refl. exists c. split; [reflexivity|]. rewrite app_nil_r, <- E. exact H.
-  - destruct (sg_skipn_cons d rd b u Hu) as (Hnth & Hu' & Hlt). pose proof H as [A1 A2 A3 A4 A5 A6 A7 A8 A9 A10 A11 A12 A13 A14 A15].
+  - destruct (sg_skipn_cons d rd b u Hu) as (Hnth & Hu' & Hlt). pose proof H as [A1 A2 A3 A4 A5 A6 A7 A8 A9 A10 A11 A12 A13 A14 A15 A16 A17].
     cbn [sg_no_lf forallb] in Hnl. apply andb_prop in Hnl. destruct Hnl as [Hb Hnl]. apply negb_true_iff in Hb.
     cbn [length] in Hn. destruct n as [|n]; [lia|].
     rewrite wr_headers_loop_eq, (sg_live_closed _ A1).
@@ -93,14 +96,14 @@ Lemma sg_hdr_scan_lf d hdr prev rh t u2 : forall u1 c rd p n,
              sg_cin c' d (rd + length u1 + 1) (p ++ u1 ++ [LF]) hdr REQ_HEADERS prev rh t /\ skipn (rd + length u1 + 1) d = u2.
 Proof.
   induction u1 as [|b u1 IH]; intros c rd p n H Hu Hnl.
-  - cbn [app] in Hu. destruct (sg_skipn_cons d rd LF u2 Hu) as (Hnth & Hu' & Hlt). pose proof H as [A1 A2 A3 A4 A5 A6 A7 A8 A9 A10 A11 A12 A13 A14 A15].
+  - cbn [app] in Hu. destruct (sg_skipn_cons d rd LF u2 Hu) as (Hnth & Hu' & Hlt). pose proof H as [A1 A2 A3 A4 A5 A6 A7 A8 A9 A10 A11 A12 A13 A14 A15 A16 A17].
     cbn [length Nat.add]. rewrite wr_headers_loop_eq, (sg_live_closed _ A1).
     assert (Hnth0 : nth_error d (k_read (c_in c)) = Some LF) by (rewrite A6; exact Hnth).
     rewrite (wr_copy_byte c d LF A4 A5 Hnth0).
     assert (Hnl' : rq_next_is (rq_set_in (wr_kadv LF) c) LF = true) by reflexivity. rewrite Hnl'.
     eexists. split; [reflexivity|]. cbn [length app]. replace (rd + 0 + 1)%nat with (S rd) by lia.
     split; [apply sg_cin_adv; assumption|exact Hu'].
-  - cbn [app] in Hu. destruct (sg_skipn_cons d rd b _ Hu) as (Hnth & Hu' & Hlt). pose proof H as [A1 A2 A3 A4 A5 A6 A7 A8 A9 A10 A11 A12 A13 A14 A15].
+  - cbn [app] in Hu. destruct (sg_skipn_cons d rd b _ Hu) as (Hnth & Hu' & Hlt). pose proof H as [A1 A2 A3 A4 A5 A6 A7 A8 A9 A10 A11 A12 A13 A14 A15 A16 A17].
     cbn [sg_no_lf forallb] in Hnl. apply andb_prop in Hnl. destruct Hnl as [Hb Hnl]. apply negb_true_iff in Hb.
     cbn [length Nat.add]. rewrite wr_headers_loop_eq, (sg_live_closed _ A1).
     assert (Hnth0 : nth_error d (k_read (c_in c)) = Some b) by (rewrite A6; exact Hnth).
@@ -186,19 +189,19 @@ Qed.
 Lemma sg_state_request_headers c d rd prev t nu :
   sg_cin c d rd [] None REQ_HEADERS prev (Some H_REQUEST_HEADER_DATA) t ->
   t_request_progress t = c_HTP_REQUEST_HEADERS -> t_parsed_uri t = Some nu ->
-  exists c' (fl : bool), tx_state_request_headers cb 0 c = (ST_OK, c') /\
+  exists c' (fl : bool), tx_state_request_headers cb (length (w_done w)) c = (ST_OK, c') /\
     sg_cin c' d rd [] None REQ_CONNECT_CHECK prev None (sg_hdr_end (if fl then tx_set_flag c_HTP_MULTI_PACKET_HEAD t else t)).
 Proof.
-  intros H Hprog Hpu. pose proof (sg_cin_slot _ _ _ _ _ _ _ _ _ H) as Hsl. pose proof H as [A1 A2 A3 A4 A5 A6 A7 A8 A9 A10 A11 A12 A13 A14 A15].
+  intros H Hprog Hpu. pose proof (sg_cin_slot _ _ _ _ _ _ _ _ _ H) as Hsl. pose proof H as [A1 A2 A3 A4 A5 A6 A7 A8 A9 A10 A11 A12 A13 A14 A15 A16 A17].
   unfold tx_state_request_headers, tx_get. rewrite Hsl, Hprog.
   change ((c_HTP_REQUEST_HEADERS <? c_HTP_REQUEST_HEADERS)%Z) with false. change ((c_HTP_REQUEST_LINE <=? c_HTP_REQUEST_HEADERS)%Z) with true. cbv iota.
   set (fl := negb (c_in_chunk_count c =? c_in_chunk_request_index c)%nat).
   set (t5 := if fl then tx_set_flag c_HTP_MULTI_PACKET_HEAD t else t).
-  assert (E5 : (if fl then tx_upd c 0 (tx_set_flag c_HTP_MULTI_PACKET_HEAD) else c) = c <| c_txs := [Some t5] |>).
+  assert (E5 : (if fl then tx_upd c (length (w_done w)) (tx_set_flag c_HTP_MULTI_PACKET_HEAD) else c) = sg_settx w t5 c).
   { unfold t5. destruct fl.
-    - rewrite (wr_tx_upd_ok c 0 t _ Hsl). apply (wr_tx_put0 c t _ A14 A15).
-    - rewrite <- A14. destruct c; reflexivity. }
-  rewrite E5. set (c5 := c <| c_txs := [Some t5] |>).
+    - apply (sg_tx_upd_at c d rd _ _ _ _ _ t _ H).
+    - unfold sg_settx. rewrite <- A14. destruct c; reflexivity. }
+  rewrite E5. set (c5 := sg_settx w t5 c).
   assert (H5 : sg_cin c5 d rd [] None REQ_HEADERS prev (Some H_REQUEST_HEADER_DATA) t5) by (eapply sg_cin_txs; exact H).
   assert (P5 : t_parsed_uri t5 = Some nu) by (unfold t5; destruct fl; exact Hpu).
   unfold tx_process_request_headers, tx_get. rewrite (sg_cin_slot _ _ _ _ _ _ _ _ _ H5).
@@ -206,13 +209,13 @@ Proof.
   set (t8 := rq_content_type (rq_host nu (rq_te_cl t5))).
   assert (E8 : sg_hdr_end t5 = t8) by (unfold sg_hdr_end; cbv zeta; rewrite (sg_parsed_uri_te_cl t5), P5; reflexivity).
   rewrite (sg_tx_put c5 d rd _ _ _ _ _ t5 t8 H5).
-  set (c6 := c5 <| c_txs := [Some t8] |>).
+  set (c6 := sg_settx w t8 c5).
   assert (H6 : sg_cin c6 d rd [] None REQ_HEADERS prev (Some H_REQUEST_HEADER_DATA) t8) by (eapply sg_cin_txs; exact H5).
   unfold req_receiver_finalize_clear. rewrite (ci_rh _ _ _ _ _ _ _ _ _ H6).
   destruct (sg_send_data cb Hcb c6 d rd _ _ _ _ _ t8 true H6) as (c7 & E7 & H7). rewrite E7.
   rewrite (wr_run_hook cb Hcb).
   eexists _, fl. split; [reflexivity|]. fold t5. rewrite E8.
-  destruct H7 as [B1 B2 B3 B4 B5 B6 B7 B8 B9 B10 B11 B12 B13 B14 B15].
+  destruct H7 as [B1 B2 B3 B4 B5 B6 B7 B8 B9 B10 B11 B12 B13 B14 B15 B16 B17].
   constructor; try assumption; try reflexivity.
 Qed.
 
@@ -255,46 +258,75 @@ Proof.
   rewrite (ci_tx _ _ _ _ _ _ _ _ _ H), Hsl, Htc. reflexivity.
 Qed.
 
-(* ---- REQ_FINALIZE at the end of the chunk completes the request; REQ_IDLE with nothing left returns HTP_STREAM_DATA ---- *)
-Lemma sg_pass_finalize c d p hdr t : sg_cin c d (length d) p hdr REQ_FINALIZE (Some REQ_FINALIZE) None t ->
+(* ---- htp_tx_state_request_complete on a request without body: the request side is between two requests again ---- *)
+Lemma sg_request_complete c d rd p prev t : sg_cin c d rd p None REQ_FINALIZE prev None t ->
   t_request_transfer_coding t = c_HTP_CODING_NO_BODY -> t_request_progress t = c_HTP_REQUEST_HEADERS ->
   (t_response_progress t =? c_HTP_RESPONSE_COMPLETE)%Z = false -> t_is_protocol_0_9 t = false ->
-  exists c', rq_iter cb g false c = inr c' /\ wr_done c' (t <| t_request_progress := c_HTP_REQUEST_COMPLETE |>) /\
-    sg_live (c_in_status c') /\ k_len (c_in c') = length d /\ k_read (c_in c') = length d /\ k_receiver_hook (c_in c') = None.
+  exists c', rq_request_complete cb g c = (ST_OK, c') /\
+    sg_idl c' d rd p (w_done w ++ [Some (t <| t_request_progress := c_HTP_REQUEST_COMPLETE |>)]) (w_flags w) prev.
 Proof.
-  intros H Htc Hprog Hresp H09. pose proof (sg_cin_slot _ _ _ _ _ _ _ _ _ H) as Hsl. pose proof H as [A1 A2 A3 A4 A5 A6 A7 A8 A9 A10 A11 A12 A13 A14 A15].
-  unfold rq_iter. rewrite A2. cbn [rq_state_fn]. unfold REQ_FINALIZE_fn, rq_finalize_scan. rewrite (sg_live_closed _ A1).
-  unfold rq_peek_next, rq_at_end. rewrite A5, A6, Nat.leb_refl.
-  set (c1 := rq_set_in (fun k => k <| k_next_byte := None |>) c).
-  change (k_next_byte (c_in c1)) with (@None N). cbv iota.
-  unfold rq_request_complete, rq_with_tx. change (c_in_tx c1) with (c_in_tx c). rewrite A13.
-  unfold tx_state_request_complete. change (tx_slot c1 0) with (tx_slot c 0). rewrite Hsl, Hprog.
+  intros H Htc Hprog Hresp H09. pose proof (sg_cin_slot _ _ _ _ _ _ _ _ _ H) as Hsl. pose proof H as [A1 A2 A3 A4 A5 A6 A7 A8 A9 A10 A11 A12 A13 A14 A15 A16 A17].
+  unfold rq_request_complete, rq_with_tx. rewrite A13.
+  unfold tx_state_request_complete. rewrite Hsl, Hprog.
   change ((c_HTP_REQUEST_HEADERS =? c_HTP_REQUEST_COMPLETE)%Z) with false. cbn [negb].
-  unfold tx_state_request_complete_partial, tx_get. change (tx_slot c1 0) with (tx_slot c 0). rewrite Hsl.
+  unfold tx_state_request_complete_partial, tx_get. rewrite Hsl.
   unfold tx_req_has_body. rewrite Htc.
   change ((c_HTP_CODING_NO_BODY =? c_HTP_CODING_IDENTITY)%Z) with false. change ((c_HTP_CODING_NO_BODY =? c_HTP_CODING_CHUNKED)%Z) with false. cbn [orb].
-  rewrite (wr_tx_upd_ok c1 0 t _ Hsl). rewrite (wr_tx_put0 c1 t _ A14 A15).
+  rewrite (sg_tx_upd_at c d rd _ _ _ _ _ t _ H).
   rewrite (wr_run_hook cb Hcb). unfold req_receiver_finalize_clear.
   set (t' := t <| t_request_progress := c_HTP_REQUEST_COMPLETE |>).
-  match goal with |- context [wr_hook_ev H_REQUEST_COMPLETE 0 None false ?x] => set (c2 := wr_hook_ev H_REQUEST_COMPLETE 0 None false x) end.
+  match goal with |- context [wr_hook_ev H_REQUEST_COMPLETE ?i None false ?x] => set (c2 := wr_hook_ev H_REQUEST_COMPLETE i None false x) end.
   change (k_receiver_hook (c_in c2)) with (k_receiver_hook (c_in c)). rewrite A11.
-  assert (S2 : tx_slot c2 0 = Some t') by (unfold tx_slot; change (c_txs_shifted c2) with (c_txs_shifted c); rewrite A15; reflexivity).
-  rewrite S2. change (t_is_protocol_0_9 t') with (t_is_protocol_0_9 t). rewrite H09.
-  unfold tx_finalize. change (tx_slot (c2 <| c_in_state := REQ_IDLE |>) 0) with (tx_slot c2 0). rewrite S2.
+  assert (X2 : c_txs c2 = w_done w ++ [Some t']) by reflexivity. assert (Y2 : c_txs_shifted c2 = 0%nat) by exact A15.
+  rewrite (sg_slot_at c2 _ _ X2 Y2). change (t_is_protocol_0_9 t') with (t_is_protocol_0_9 t). rewrite H09.
+  unfold tx_finalize.
+  assert (X3 : c_txs (c2 <| c_in_state := REQ_IDLE |>) = w_done w ++ [Some t']) by reflexivity.
+  assert (Y3 : c_txs_shifted (c2 <| c_in_state := REQ_IDLE |>) = 0%nat) by exact A15.
+  rewrite (sg_slot_at _ _ _ X3 Y3).
   unfold tx_is_complete. change (t_response_progress t') with (t_response_progress t). rewrite Hresp, andb_false_r. cbn [negb].
-  set (c3 := c2 <| c_in_state := REQ_IDLE |> <| c_in_tx := None |>).
-  change (c_in_status c3) with (c_in_status c). rewrite (sg_live_tunnel _ A1).
-  unfold req_handle_state_change. change (c_in_state_previous c3) with (c_in_state_previous c). rewrite A3.
-  change (c_in_state c3) with REQ_IDLE. cbn [req_state_eqb].
-  eexists. split; [reflexivity|]. split; [constructor; reflexivity|].
-  split; [exact A1|]. split; [exact A5|]. split; [exact A6|exact A11].
+  eexists. split; [reflexivity|].
+  constructor; try assumption; try reflexivity.
 Qed.
 
-Lemma sg_pass_idle_end c t n : wr_done c t -> sg_live (c_in_status c) -> k_len (c_in c) = n -> k_read (c_in c) = n -> k_receiver_hook (c_in c) = None ->
+Lemma sg_idl_prev c d rd p done fl prev pv : sg_idl c d rd p done fl prev -> sg_idl (c <| c_in_state_previous := pv |>) d rd p done fl pv.
+Proof. intros [A1 A2 A3 A4 A5 A6 A7 A8 A9 A10 A11 A12 A13 A14 A15 A16 A17]. constructor; try assumption; reflexivity. Qed.
+Lemma sg_idl_next c d rd p done fl prev nb : sg_idl c d rd p done fl prev -> sg_idl (rq_set_in (fun k => k <| k_next_byte := nb |>) c) d rd p done fl prev.
+Proof. intros [A1 A2 A3 A4 A5 A6 A7 A8 A9 A10 A11 A12 A13 A14 A15 A16 A17]. constructor; try assumption; reflexivity. Qed.
+Lemma sg_cin_bdl c d rd p hdr st prev rh t v : sg_cin c d rd p hdr st prev rh t -> sg_cin (c <| c_in_body_data_left := v |>) d rd p hdr st prev rh t.
+Proof. intros H. apply (sg_cin_ext c); try reflexivity. exact H. Qed.
+
+(* the state change after a pass that ended in REQ_IDLE *)
+Lemma sg_iter_idle c c1 d rd p done fl prev :
+  rq_state_fn cb g (c_in_state c) c = (ST_OK, c1) -> sg_idl c1 d rd p done fl prev ->
+  exists c', rq_iter cb g false c = inr c' /\ sg_idl c' d rd p done fl (Some REQ_IDLE).
+Proof.
+  intros E H. unfold rq_iter. rewrite E. rewrite (sg_live_tunnel _ (il_status _ _ _ _ _ _ _ H)).
+  unfold req_handle_state_change. rewrite (il_prev _ _ _ _ _ _ _ H), (il_state _ _ _ _ _ _ _ H).
+  destruct (match prev with Some s => req_state_eqb s REQ_IDLE | None => false end) eqn:Ep.
+  - eexists. split; [reflexivity|]. destruct prev as [s|]; [|discriminate]. destruct s; try discriminate. exact H.
+  - cbn [req_state_eqb]. rewrite (il_state _ _ _ _ _ _ _ H). eexists. split; [reflexivity|]. apply sg_idl_prev with (prev := prev). exact H.
+Qed.
+
+(* ---- REQ_FINALIZE at the end of the chunk completes the request; REQ_IDLE with nothing left returns HTP_STREAM_DATA ---- *)
+Lemma sg_pass_finalize c d p t : sg_cin c d (length d) p None REQ_FINALIZE (Some REQ_FINALIZE) None t ->
+  t_request_transfer_coding t = c_HTP_CODING_NO_BODY -> t_request_progress t = c_HTP_REQUEST_HEADERS ->
+  (t_response_progress t =? c_HTP_RESPONSE_COMPLETE)%Z = false -> t_is_protocol_0_9 t = false ->
+  exists c', rq_iter cb g false c = inr c' /\
+    sg_idl c' d (length d) p (w_done w ++ [Some (t <| t_request_progress := c_HTP_REQUEST_COMPLETE |>)]) (w_flags w) (Some REQ_IDLE).
+Proof.
+  intros H Htc Hprog Hresp H09. pose proof H as [A1 A2 A3 A4 A5 A6 A7 A8 A9 A10 A11 A12 A13 A14 A15 A16 A17].
+  assert (Ef : rq_state_fn cb g (c_in_state c) c = rq_request_complete cb g (rq_set_in (fun k => k <| k_next_byte := None |>) c)).
+  { rewrite A2. cbn [rq_state_fn]. unfold REQ_FINALIZE_fn, rq_finalize_scan. rewrite (sg_live_closed _ A1).
+    unfold rq_peek_next, rq_at_end. rewrite A5, A6, Nat.leb_refl. reflexivity. }
+  destruct (sg_request_complete _ d _ p _ t (sg_cin_next _ _ _ _ _ _ _ _ _ None H) Htc Hprog Hresp H09) as (c1 & E1 & H1).
+  eapply (sg_iter_idle c c1 d _ p); [rewrite Ef; exact E1|exact H1].
+Qed.
+
+Lemma sg_pass_idle_end c d p done fl prev : sg_idl c d (length d) p done fl prev ->
   rq_iter cb g false c = inl (c <| c_in_status := c_HTP_STREAM_DATA |>, c_HTP_STREAM_DATA).
 Proof.
-  intros [Htxs Htx Hs] Hst Hl Hr Hrh. unfold rq_iter. rewrite Hs. cbn [rq_state_fn]. unfold REQ_IDLE_fn, rq_at_end. rewrite Hl, Hr, Nat.leb_refl.
-  unfold rq_exit, req_receiver_send_data. rewrite Hrh. reflexivity.
+  intros [A1 A2 A3 A4 A5 A6 A7 A8 A9 A10 A11 A12 A13 A14 A15 A16 A17]. unfold rq_iter. rewrite A2. cbn [rq_state_fn]. unfold REQ_IDLE_fn, rq_at_end. rewrite A5, A6, Nat.leb_refl.
+  unfold rq_exit, req_receiver_send_data. rewrite A11. reflexivity.
 Qed.
 
 (* ---- facts about the wire lines of a block ---- *)
